@@ -1095,6 +1095,11 @@ class QuicConnection:
                 space.ack_queue.add(packet_number)
                 if is_ack_eliciting and space.ack_at is None:
                     space.ack_at = now + self._ack_delay
+                # An ACK frame reports at most MAX_ACK_RANGES ranges: once that many
+                # are queued a pending ACK is due at the next transmission, so that
+                # _write_ack_frame never has to forget a range it has not reported.
+                if space.ack_at is not None and len(space.ack_queue) >= MAX_ACK_RANGES:
+                    space.ack_at = min(space.ack_at, now)
 
     def request_key_update(self) -> None:
         """
@@ -3062,7 +3067,7 @@ class QuicConnection:
 
         while True:
             # apply pacing, except if we have ACKs to send
-            if space.ack_at is None or space.ack_at >= now:
+            if space.ack_at is None or space.ack_at > now:
                 self._pacing_at = self._loss._pacer.next_send_time(now=now)
                 if self._pacing_at is not None:
                     break
